@@ -127,6 +127,11 @@ func VerifyFunction(P *Program, S *Specs, key string) (res *FuncResult) {
 				fail("contract drift: %s has an assertion at call %s, but no such call site was reached", key, site)
 			}
 		}
+		for site := range c.CallInterf {
+			if !x.hitSites["interference "+site] {
+				fail("contract drift: %s declares interference at call %s, but no such call site was reached", key, site)
+			}
+		}
 	}
 	if out != nil {
 		if c != nil {
